@@ -178,6 +178,8 @@ pub enum Backend {
     Ext { plan: ReplyPlan, vary_plan: bool },
     /// the real embedded CadicalSolver
     Cadical,
+    /// the real ExternalSatSolver spawning the real `fakesat` program for every SAT call (real OS pipes)
+    Process { seed: u64, comment_bytes: usize },
 }
 
 #[derive(Clone, Debug, PartialEq, Eq, Hash, Serialize, Deserialize)]
@@ -297,6 +299,15 @@ pub fn factory_for(backend: Backend, hub: &Hub, chub: &Option<CHub>) -> Fac {
         Backend::Sim => simsat::factory(hub),
         Backend::Ext { .. } => simsat::ext_factory(hub, chub.as_ref().unwrap()),
         Backend::Cadical => Box::new(|| crustabri::sat::default_solver()),
+        Backend::Process { seed, comment_bytes } => {
+            let prog = crate::cli::fakesat_path().to_string_lossy().to_string();
+            Box::new(move || {
+                Box::new(crustabri::sat::ExternalSatSolver::new(
+                    prog.clone(),
+                    vec![format!("seed={}", seed), format!("comment-bytes={}", comment_bytes), "policy=uniform".to_string()],
+                )) as Box<dyn SatSolver>
+            })
+        }
     }
 }
 
